@@ -299,6 +299,10 @@ impl World {
 
     /// All successor worlds of thread `t` taking one transition.
     pub fn steps(&self, p: &Program, t: usize, mode: Mode) -> Vec<World> {
+        // the other threads start only after thread 0's sequential prefix
+        if t != 0 && self.th[0].pc < p.pre.min(p.threads[0].ops.len()) {
+            return vec![];
+        }
         let th = &self.th[t];
         let ops = &p.threads[t].ops;
         match th.phase {
